@@ -293,7 +293,10 @@ def plan(rng, tier):
     for _ in range(240 if q else 3600):
         N = rng.randint(2, 6)
         orders = rng.sample(range(1, min(4, N) + 1), rng.randint(1, min(3, N, 4)))
-        acts = [[o, [rng.choice([0, 1, 1, 0.5, 0.25, 0.0, 1.0]) for _ in range(N)]] for o in orders]
+        # one vector in six is that of a larger population (longer than N): only the first N activities belong to the model's
+        # nodes, whatever the vector holds the model emits nodes below N only
+        more = rng.choice([0, 0, 0, 0, 0, rng.randint(1, 3)])
+        acts = [[o, [rng.choice([0, 1, 1, 0.5, 0.25, 0.0, 1.0]) for _ in range(N + more)]] for o in orders]
         pass_time = rng.random() < 0.9
         items.append(dict(fn="HOADmodel", n=N, acts=acts, time=rng.choice([0, 1, 2, 3, 5]), pass_time=pass_time, **seeds()))
     # add_random_edge(s)
